@@ -244,6 +244,16 @@ func runC15(w *World, r *Report) {
 	if !alloc {
 		probs = append(probs, "no return of a value allocated in the function")
 	}
+	// nothing else the result holds may point into package-level storage either
+	{
+		r2 := NewReport(r.Prop, r.Tier)
+		escapeRule(w, r2, sf)
+		for _, o := range r2.Obs {
+			if o.Verdict != VOK {
+				probs = append(probs, o.Diag)
+			}
+		}
+	}
 	if len(probs) == 0 {
 		r.OK("fresh", fi.Key, "", w.Pos(fi.Decl.Pos()), "returns a heap allocation made per call; nothing derived from the table entry is returned, stored or written through", true)
 	} else {
